@@ -30,6 +30,10 @@ NEXT_BITS = "retrofire_core::math::rand::Xorshift64::next_bits"
 STATE_ADT = "retrofire_core::math::rand::Xorshift64"
 
 
+class _Endless(Exception):
+    """a sampler that is still drawing after the followed number of draws"""
+
+
 def interpret_linear(body):
     """Returns (T rows, returned rows, log). Raises gf2.NotLinear."""
     vals = {}           # local -> ('mat', rows) | ('ptr',) | ('int', k) | ('bool', b)
@@ -351,7 +355,7 @@ def structural(rep, prog):
     RNGN = "core::ops::range::Range"
     UNI = "retrofire_core::math::rand::Uniform"
 
-    def draws_of(body, self_val, env, n_draw_syms=1, accept=None):
+    def draws_of(body, self_val, env, n_draw_syms=1, accept=None, max_draws=None):
         """interpret body(&self, rng); -> (result, [(receiver value, same generator?)], interpreter)"""
         log = []
         gcell = A.Frame(None)
@@ -365,6 +369,8 @@ def structural(rep, prog):
 
         def m_sample(it_, args, c, d):
             k = len(log)
+            if max_draws is not None and k >= max_draws:
+                raise _Endless("more than %d draws" % max_draws)
             recv = A.deref_all(it_, args[0])
             log.append((A.copy_val(recv), root(it_, args[1]) is gcell))
             if n_draw_syms == 1:
@@ -470,6 +476,38 @@ def structural(rep, prog):
                     bad_guard.append("candidate %d is accepted by %s(<its squared length%s>, %s)" % (k, o, "" if is_lensqr else " ?: another quantity", cv))
             if not tests:
                 bad_guard.append("no acceptance test on the candidate's squared length")
+        # the scenario in which EVERY candidate is rejected: the sampler must not come back with something else (a give-up value after a
+        # capped number of tries, say) unless that value is inside the unit ball too. Decided only by a counterexample: what it returns
+        # is evaluated at the cube's corner (-1, .., -1) — a candidate the generator can produce (the range's start is inclusive) and
+        # one that is rejected, as the scenario says
+        def reject_all(op, x, y):
+            for pv, flip in ((x, False), (y, True)):
+                try:
+                    pp = S.to_poly(pv)
+                except S.NotPolynomial:
+                    continue
+                if any(m_.startswith("v") and "_" in m_ for mono in pp for m_ in mono):
+                    o = {"Lt": "Gt", "Gt": "Lt", "Le": "Ge", "Ge": "Le"}.get(op, op) if flip else op
+                    return {"Le": False, "Lt": False, "Gt": True, "Ge": True}.get(o)
+            return None
+        gave_up = None
+        try:
+            r, log, it_ = draws_of(b, ("adt", "retrofire_core::math::rand::" + nm, nm, []), {}, n_draw_syms=dim, accept=reject_all, max_draws=64)
+            comps = [A.deref_all(it_, x) for x in S.components(it_, r)] if isinstance(r, tuple) and r[0] == "adt" else None
+            if comps:
+                point = {"v%d_%d" % (k, j): -1.0 for k in range(len(log)) for j in range(dim)}
+                vals = [float(S.num_eval(c, point)) for c in comps]
+                gave_up = (len(log), vals, sum(v_ * v_ for v_ in vals))
+        except _Endless:
+            pass                      # keeps drawing: nothing unaccepted is ever returned
+        except (A.Undecided, A.Panic, S.NotPolynomial, KeyError, TypeError, ValueError):
+            pass                      # undecided here; the K-scenarios above stand on their own
+        rep.inst("C19.s4", "%s::sample with every candidate rejected: %s" % (nm, "keeps drawing (64 draws followed)" if gave_up is None else
+                 "returns after %d draws; at the corner candidate (-1,..,-1) the value is %s, squared length %.6g" % gave_up), config=cfg)
+        if gave_up is not None and gave_up[2] > 1.0 + 1e-6:
+            rep.violate("C19.s4", "s4|%s|give-up" % nm, b.where(),
+                        "%s gives up after %d rejected candidates and returns a vector outside the unit ball: with every candidate at the corner "
+                        "(-1,..,-1) of the cube it returns %s, squared length %.6g > 1" % (nm, gave_up[0], gave_up[1], gave_up[2]), config=cfg)
         rep.inst("C19.s4", "%s::sample with 0 / 1 / 2 rejected candidates: draws until len_sqr(v) <= 1 and returns that very v: %s / %s" % (nm, not bad_guard, not bad_value), config=cfg)
         if bad_guard:
             rep.violate("C19.s4", "s4|%s|guard" % nm, b.where(), "%s can return a vector that was not accepted by len_sqr(v) <= 1 (%s)" % (nm, bad_guard[0]), config=cfg)
